@@ -202,7 +202,8 @@ Definition scan_file (c : cfg) (n : nat) (ms : list msg) : result (list obj) :=
 
 (* ---------- filter predicate language (interpreted identically by the Go harness) ---------- *)
 (* code 0: accept all; 1: reject all; 2 k r: id mod k = r (Go's %: sign of the dividend);
-   3: has at least one tag; 4: version is even; 5 k: (id*31+7) mod 11 < k (Euclidean) *)
+   3: has at least one tag; 4: version is even; 5 k: (id*31+7) mod 11 < k (Euclidean);
+   6 a b: id outside [a, b]; 7 a b: id inside [a, b] *)
 Record pred := mkPred { pr_code : Z; pr_a : Z; pr_b : Z }.
 Definition ppred : P pred := a <- pint ;; b <- pint ;; c <- pint ;; ret (mkPred a b c).
 
@@ -214,6 +215,8 @@ Definition eval_pred (p : pred) (id : Z) (version : Z) (ntags : nat) : bool :=
   else if c =? 3 then negb (Nat.eqb ntags 0)
   else if c =? 4 then Z.even version
   else if c =? 5 then (wrap64 (wrap64 (id * 31) + 7)) mod 11 <? pr_a p
+  else if c =? 6 then negb ((pr_a p <=? id) && (id <=? pr_b p))   (* everything outside an id range *)
+  else if c =? 7 then (pr_a p <=? id) && (id <=? pr_b p)          (* an id range (bounding-range filter) *)
   else true.
 
 Definition cfg_of (sn sw sr : bool) (pn pw pr : pred) : cfg :=
